@@ -10,6 +10,7 @@ import (
 	"fmt"
 	"io"
 	"math"
+	"reflect"
 
 	"gorgonia.org/tensor"
 )
@@ -214,7 +215,39 @@ func TensorFromProto(tp *TensorProto) (tensor.Tensor, error) {
 		return nil, err
 	}
 
+	if err := validateDims(tp, reflect.ValueOf(values).Len()); err != nil {
+		return nil, err
+	}
+
 	return tensor.New(tensor.WithShape(getDims(tp)...), tensor.WithBacking(values)), nil
+}
+
+// ErrInvalidTensorShape is returned when the dims of a tensor are negative or do not
+// correspond with the number of elements in its data.
+var ErrInvalidTensorShape = errors.New("tensor dims do not match its data")
+
+// validateDims checks that all dims are non-negative and that their product equals
+// the number of elements that was read for the tensor.
+func validateDims(tp *TensorProto, nElements int) error {
+	expected := int64(1)
+
+	for _, dim := range tp.GetDims() {
+		if dim < 0 {
+			return fmt.Errorf("%w: negative dim %d", ErrInvalidTensorShape, dim)
+		}
+
+		if dim != 0 && expected > math.MaxInt64/dim {
+			return fmt.Errorf("%w: dims %v are too large", ErrInvalidTensorShape, tp.GetDims())
+		}
+
+		expected *= dim
+	}
+
+	if expected != int64(nElements) {
+		return fmt.Errorf("%w: dims %v need %d elements, got %d", ErrInvalidTensorShape, tp.GetDims(), expected, nElements)
+	}
+
+	return nil
 }
 
 func getFloatData(tp *TensorProto) ([]float32, error) {
